@@ -2,6 +2,7 @@ package gen
 
 import (
 	"fmt"
+	"math/rand"
 	"strings"
 	"unicode"
 )
@@ -697,4 +698,124 @@ func (b *builder) std(path string) *Dep {
 	d := *stdByPath(path)
 	b.t.Std = append(b.t.Std, &d)
 	return &d
+}
+
+// MatrixKinds lists the deterministic matrix trees.
+var MatrixKinds = []string{"initialisms", "derived", "reserved", "numbered"}
+
+// NewMatrixTree builds one of the deterministic trees that enumerate a finite sub-space completely:
+//   - initialisms: every golint initialism in four casings as a user-written parameter name;
+//   - derived:     an unnamed parameter of every type constructor nested two levels over every element kind;
+//   - reserved:    unnamed parameters of local types whose de-capitalised name is a keyword, a basic type name, or
+//     one of the names generated code declares (Mock, CallInfo, Break, String, ...);
+//   - numbered:    every arrangement of {s, s1, s2, s3, _} over 1..4 string parameters (user names distinct).
+func NewMatrixTree(kind string, hz Hazards) *Tree {
+	seed := int64(len(kind))*7919 + int64(kind[0])
+	b := &builder{rng: rand.New(rand.NewSource(seed)), prof: Profile{Name: "matrix-" + kind, NDeps: 2, MaxDepth: 1}, hz: hz}
+	t := &Tree{Seed: seed, Profile: "matrix-" + kind, Files: map[string]string{}, ModPath: "example.com/matrix" + kind}
+	b.t = t
+	t.Files["go.mod"] = "module " + t.ModPath + "\n\ngo 1.24\n"
+	t.SrcName, t.SrcDir = "mx", "mx"
+	t.SrcPath = t.ModPath + "/mx"
+	b.makeDeps()
+	for _, d := range t.Deps {
+		d.SrcAlias = "" // plain imports
+	}
+	b.makeLocals()
+	str := basic("string")
+	add := func(prefix string, methods []Method) {
+		for k := 0; k*30 < len(methods); k++ {
+			end := (k + 1) * 30
+			if end > len(methods) {
+				end = len(methods)
+			}
+			t.Ifaces = append(t.Ifaces, &Iface{Name: fmt.Sprintf("%s%d", prefix, k), Exportable: true, Methods: methods[k*30 : end], Tags: []string{"matrix"}})
+		}
+	}
+	switch kind {
+	case "initialisms":
+		var ms []Method
+		for _, in := range initialisms {
+			for c, n := range []string{strings.ToLower(in), in, in[:1] + strings.ToLower(in[1:]), strings.ToLower(in[:1]) + in[1:]} {
+				ms = append(ms, Method{Name: fmt.Sprintf("M%s%d", in, c), Params: []Param{{n, basic("int")}, {"other", str}}})
+			}
+		}
+		add("MxInit", ms)
+	case "derived":
+		l := t.Locals
+		d := t.Deps[0]
+		elems := []*T{str, basic("int"), basic("bool"), basic("float64"), basic("error"), basic("int64"), basic("rune"), local(l.Struct), pkgT(d, d.Struct), local(l.Key), pkgT(d, d.Num)}
+		ctors := []func(e *T) *T{
+			func(e *T) *T { return e },
+			func(e *T) *T { return ptr(e) },
+			func(e *T) *T { return slice(e) },
+			func(e *T) *T { return &T{Kind: KArray, ArrLen: "3", Elem: e} },
+			func(e *T) *T { return &T{Kind: KMap, Key: str, Elem: e} },
+			func(e *T) *T { return &T{Kind: KMap, Key: basic("int"), Elem: e} },
+			func(e *T) *T { return &T{Kind: KChan, Elem: e} },
+			func(e *T) *T { return &T{Kind: KChan, Dir: 2, Elem: e} },
+		}
+		var ms []Method
+		n := 0
+		for _, c1 := range ctors {
+			for _, c2 := range ctors {
+				for ei, e := range elems {
+					if (n+ei)%3 != 0 && !(ei < 2) { // all constructors pairs for string/int, every third for the rest
+						continue
+					}
+					ms = append(ms, Method{Name: fmt.Sprintf("D%d", len(ms)), Params: []Param{{"", c1(c2(e))}}})
+				}
+				n++
+			}
+		}
+		ms = append(ms, Method{Name: "DFunc", Params: []Param{{"", &T{Kind: KFunc, Params: []*T{str}}}}},
+			Method{Name: "DStruct", Params: []Param{{"", &T{Kind: KStruct, Fields: []Field{{Name: "A", Type: str}}}}}},
+			Method{Name: "DIface", Params: []Param{{"", &T{Kind: KIface, Methods: []IMethod{{Name: "X"}}}}}},
+			Method{Name: "DFuncs", Params: []Param{{"", slice(&T{Kind: KFunc})}}})
+		add("MxDerived", ms)
+	case "reserved":
+		words := []string{"Mock", "CallInfo", "Break", "Default", "Func", "Interface", "Select", "Case", "Defer", "Go", "Map", "Struct", "Chan", "Else", "Goto", "Package", "Switch", "Const", "Fallthrough", "If", "Range", "Type", "Continue", "For", "Import", "Return", "Var",
+			"String", "Bool", "Byte", "Rune", "Uintptr", "Int", "Int8", "Int16", "Int32", "Int64", "Uint", "Uint8", "Uint16", "Uint32", "Uint64", "Float32", "Float64", "Complex64", "Complex128"}
+		var decl strings.Builder
+		var ms []Method
+		for i, w := range words {
+			fmt.Fprintf(&decl, "type %s struct{ X%d int }\n\n", w, i)
+			ty := local(w)
+			ms = append(ms, Method{Name: fmt.Sprintf("R%dA", i), Params: []Param{{"", ty}}},
+				Method{Name: fmt.Sprintf("R%dB", i), Params: []Param{{"_", ptr(ty)}, {"_", str}}, Results: []Param{{"", ty}}})
+		}
+		t.ExtraDecls = decl.String()
+		add("MxReserved", ms)
+	case "numbered":
+		names := []string{"s", "s1", "s2", "s3", "_"}
+		var ms []Method
+		var rec func(cur []string)
+		rec = func(cur []string) {
+			if len(cur) > 0 {
+				var ps []Param
+				for _, n := range cur {
+					ps = append(ps, Param{n, str})
+				}
+				ms = append(ms, Method{Name: fmt.Sprintf("N%d", len(ms)), Params: ps})
+			}
+			if len(cur) == 4 {
+				return
+			}
+			for _, n := range names {
+				dup := false
+				for _, c := range cur {
+					if c == n && n != "_" {
+						dup = true
+					}
+				}
+				if !dup {
+					rec(append(append([]string{}, cur...), n))
+				}
+			}
+		}
+		rec(nil)
+		add("MxNumbered", ms)
+	}
+	b.render()
+	return t
 }
